@@ -353,6 +353,17 @@ pub fn native_maps(seed: u64, tier: &str) -> BTreeMap<String, Vec<(Vec<AbsObj>, 
             let text = concretize(mode, &objs, &profile((seed as u32).wrapping_add(i as u32)));
             v.push((objs, text));
         }
+        // one longer, hand-shaped map per mode: 40 circles, the first 28 with the same (no) hit sound - a mono-colour run in
+        // taiko, one lane in mania - then alternating; conversion-dependent state (is_convert read by a skill) needs such runs
+        {
+            let m = crate::absmap::mode_num(mode);
+            let mut text = format!("osu file format v14\n\n[General]\nMode: {m}\n\n[Difficulty]\nHPDrainRate:5\nCircleSize:4\nOverallDifficulty:7\nApproachRate:8\nSliderMultiplier:1.4\nSliderTickRate:1\n\n[TimingPoints]\n0,400,4,2,0,100,1,0\n\n[HitObjects]\n");
+            for k in 0..40u32 {
+                let snd = if k < 28 { 0 } else { [8u32, 0, 2][k as usize % 3] };
+                text += &format!("{},{},{},1,{snd}\n", 64 + 128 * ((k / 7) % 4), 100 + 30 * (k % 5), 1000 + 150 * k);
+            }
+            v.push((Vec::new(), text));
+        }
         out.insert(mode.to_string(), v);
     }
     out
